@@ -349,7 +349,7 @@ class yanny(OrderedDict):
                 #
                 self.filename = 'in_memory.par'
                 contents = filename.read()
-                if 'b' in filename.mode:
+                if isinstance(contents, bytes):
                     contents = contents.decode('ascii')
                 self._contents = contents
             self._parse()
